@@ -4,7 +4,8 @@ interior flagging, frame, survival.  Tie: flags are compared in the buffer opera
 (hook) and in the API-level correspondences of the lookup properties.  Search: HarfBuzz-verifier style
 piece reshaping (cut at ALL unflagged cluster starts at once, reshape, concatenate, compare) as a
 fixed-seed sweep over the corpus fonts, known failing instances listed one by one
-(corpus/C03-known-instances.json, classes decided on the input; the AAT path is its own class)."""
+(corpus/C03-known-instances.json, classes decided on the input; the AAT path is its own class), and the same
+experiment on generated small-alphabet fonts (flaggen.rs; corpus/C03-known-gen-instances.json)."""
 import json
 
 import bufcorr
@@ -21,7 +22,8 @@ def run(chk):
     chk.cov["rule"] = ("piece reshaping on the corpus fonts: shape whole (levels 0/1, no context), cut the input at every cluster start whose first glyph is free of "
                        "UNSAFE_TO_BREAK, reshape the pieces with BOT/EOT cleared on inner sides, concatenate in visual order, compare ids/clusters/advances/offsets; "
                        "fixed-seed sweep (seed %d) so that known failing instances are identified by their exact font+request; buffer op correspondence incl. flag "
-                       "masks seeded by VERIF_SEED. non-trivial = at least one safe cut existed" % sw["seed"])
+                       "masks seeded by VERIF_SEED; the same experiment on generated small-alphabet fonts (harness/src/flaggen.rs: PairPos with records that are empty / one-axis / device-only, "
+                       "(chain) context formats 1-3 with nested single/multiple/ligature lookups, all four directions, fixed seed). non-trivial = at least one safe cut existed" % sw["seed"])
     pr = chk.prove(extra_targets=["Corr/BufferC.vo"])
     broken = []
     if chk.guards_failed:
@@ -58,7 +60,8 @@ def run(chk):
             fails.append(f)
     for cls, fs in sorted(per_class.items()):
         chk.known_finding(cls, "%d listed instance(s) of the piece-reshaping sweep, e.g. font=%s req=[%s]" % (len(fs), fs[0]["font"], fs[0]["req"]))
-    chk.sample({"sweep_summary": summary})
+    gsum = sweeps.gen_sweep(chk, binp, "C03", fails, "piece_reshaping_generated_fonts")
+    chk.sample({"sweep_summary": summary, "generated_font_sweep_summary": gsum})
     chk.note("correspondence_disagreements", len(dis))
     for f in fails[:3]:
         chk.violation(f["kind"], f)
@@ -66,7 +69,7 @@ def run(chk):
         chk.violation("tie-or-proof-broken", {"broken": broken, "disagreements": dis[:8],
                       "note": "Props/C03.v or the buffer correspondence (flags included) no longer checks; the piece-reshaping sweep found no new failing input"},
                       no_input=True)
-    chk.cov["trusted_base"] = C.DEFAULT_TRUSTED_BASE + ["hook: src/hb/verif/buffer.rs", "corpus/C03-known-instances.json (collected on the committed tree by tools/collect_known.py)"]
+    chk.cov["trusted_base"] = C.DEFAULT_TRUSTED_BASE + ["hook: src/hb/verif/buffer.rs", "corpus/C03-known-instances.json and C03-known-gen-instances.json (collected on the committed tree by tools/collect_known.py)", "harness/src/flaggen.rs (font generator) and fontgen (sfnt writer)"]
     chk.assumptions = C.DEFAULT_ASSUMPTIONS + ["engine-wide locality is not proved: theorems cover the flag primitives; lookups/shapers are covered by flag correspondence and the sweep"]
 
 
